@@ -1,21 +1,95 @@
 #!/venv/bin/python
-"""Prints the markdown table 'seeded change -> checks that catch it' from /verif/seeded/*/meta.json."""
+"""Prints the markdown table 'seeded change -> checks that catch it' from /verif/seeded/*/meta.json.
+
+usage: tools/seed_table.py [--long]      (default: compact rows for DESIGN.md 11.6)
+"""
 import glob
 import json
 import os
+import sys
 
-rows = []
-for f in sorted(glob.glob(os.path.join(os.path.dirname(os.path.dirname(os.path.abspath(__file__))), "seeded", "*", "meta.json"))):
-    sid = os.path.basename(os.path.dirname(f))
-    m = json.load(open(f))
-    ev = m.get("evaluation", {})
-    caught = [c for c, v in ev.get("checks", {}).items() if v.get("exit") == 1]
-    first = next((v.get("first", "") for c, v in ev.get("checks", {}).items() if v.get("exit") == 1), "")
-    summ = " ".join(str(m.get("summary", "")).split())[:230]
-    needs = " ".join(str(m.get("needs", "")).split())[:200]
-    rows.append((sid, m.get("property", "?"), summ, needs, ", ".join(caught) or ("not confirmed" if not ev.get("confirmed") else "MISSED"),
-                 first.split(":")[0:3]))
-print("| seeded change | property | what was changed | needs to manifest | caught by | first violation key |")
-print("|---|---|---|---|---|---|")
-for sid, pid, summ, needs, caught, first in rows:
-    print(f"| {sid} | {pid} | {summ} | {needs} | {caught} | `{':'.join(first)}` |")
+# what had to be added to the checks before the change was caught ("" = caught by the checks as they were)
+ADDED = {
+    "C01": "same-type insertion-code twins in the census corpus",
+    "C03": "parameter-file option in histories, cache hazard in RunHistory, PureRef against fresh-interpreter references",
+    "C06": "boundary shifts (chain B starts at the number chain A ends with)",
+    "C08": "ASP/HIS point mutants (ionizable group on the same atom name) in the generator",
+    "C09": "exact-sign bracket of the pI on the curve of the reported groups",
+    "C14": "same-type twins and two ligand copies in one chain under a titrate-only list",
+    "C17": "equivariance replays on planar / distorted sp2 neighbours",
+    "C18": "unmerged short line sequences (VIEW hid the history that drives the remembered value)",
+    "w2_C01": "truncations that keep the defining atom but remove the interaction atoms",
+    "w2_C05": "unions whose second part starts with the number the first part ends with",
+    "w2_C06": "shifts by +-1000",
+    "w2_C10": "multi-conformation inputs in the profile traces (FoldSum per conformation and for the average)",
+    "w2_C12": "C-terminal template (OXT without C) in Truncation.tla",
+    "w2_C14": "PartnersKept: non-iterative hydrogen-bond partners keep listing each other",
+    "w2_C15": "coupling that exists in a later conformation only",
+    "w2_C16": "parameter-file variants (desolvationAllowance > 0)",
+    "w2_C17": "hetero amino acid (MSE) linked into the chain",
+    "w2_C19": "multi-conformation inputs with ligand serials in the serial-rewrite relation",
+    "w2_C20": "scaled and near-parallel triples",
+    "w3_C01": "alt-loc point mutants in the reader alphabet (RNames AA/AB), KeyKind \"named\" self-test",
+    "w3_C02": "chains truncated to start at ASP / HIS / CYS (covalently coupled, penalised)",
+    "w3_C03": "a decoy propka.cfg in the working directory of a history",
+    "w3_C04": "fragment with a truncated carboxylate",
+    "w3_C05": "a structure and its copy in the same chain (ligand groups share a label)",
+    "w3_C06": "dimer fragment with alternate locations in both chains (and two-chain key set in the C08 generator)",
+    "w3_C07": "hydrogens whose alt-loc label no heavy atom uses; multi-conformation inputs",
+    "w3_C08": "unaggregated determinant lists, ion inputs, AgreeingAverageToThemselves",
+    "w3_C12": "ligand-kit truncations; --protonate-all on truncated inputs",
+    "w3_C13": "chain identifiers that differ only in case (CS_Aa in MC_PdbReader, A/a runs)",
+    "w3_C14": "a list that names no existing residue",
+    "w3_C15": "replay of the whole probe (is_coupled_protonation_state_probability) incl. twin labels (EqualLabels)",
+    "w3_C16": "twin ions next to buried groups",
+    "w4_C01": "a disulfide turned parallel to an axis and pushed along it in 0.01 A steps",
+    "w4_C02": "point-mutant conformations (a reported group in some conformations only)",
+    "w4_C03": "every (content, option) key repeated systematically; a fragment that really is coupled",
+    "w4_C04": "translations that put a constructed hydrogen exactly on a coordinate plane",
+    "w4_C05": "a first part holding a group without interaction atoms",
+    "w4_C06": "relabelling mode: lone insertion code on a unique number (AddCode) on the alt-loc dimer",
+    "w4_C07": "hydrogen names of real files (four characters, leading digits, primes), also in hetero residues",
+    "w4_C08": "SameResidueSameGroups; whole terminal residues in two alternate locations",
+    "w4_C11": "run-level part: bridged cysteines under -i / -d / --protonate-all",
+    "w4_C14": "alt-loc fragment and disulfide fragment under titrate-only lists",
+    "w4_C15": "a coupled partner that is also penalised by covalent coupling",
+    "w4_C16": "buried-fraction bound also on the reported average",
+}
+ROUND = {"C": 1, "w2": 2, "w3": 3, "w4": 4, "w5": 5}
+
+
+def main():
+    long = "--long" in sys.argv
+    rows = []
+    root = os.path.dirname(os.path.dirname(os.path.abspath(__file__)))
+    for f in sorted(glob.glob(os.path.join(root, "seeded", "*", "meta.json"))):
+        sid = os.path.basename(os.path.dirname(f))
+        m = json.load(open(f))
+        ev = m.get("evaluation", {})
+        caught = [c for c, v in ev.get("checks", {}).items() if v.get("exit") == 1]
+        first = next((v.get("first", "") for c, v in ev.get("checks", {}).items() if v.get("exit") == 1), "")
+        summ = " ".join(str(m.get("summary", "")).split())
+        needs = " ".join(str(m.get("needs", "")).split())
+        rows.append((sid, m.get("property", "?"), summ, needs,
+                     ", ".join(caught) or ("not confirmed" if not ev.get("confirmed") else "MISSED"), first))
+    rows.sort(key=lambda r: (ROUND.get(r[0].split("_")[0] if "_" in r[0] else "C", 9), r[0]))
+    if long:
+        print("| seeded change | property | what was changed | needs to manifest | caught by | first violation key |")
+        print("|---|---|---|---|---|---|")
+        for sid, pid, summ, needs, caught, first in rows:
+            print(f"| {sid} | {pid} | {summ[:230]} | {needs[:200]} | {caught} | `{':'.join(first.split(':')[0:3])}` |")
+        return
+    print("| round | property | seeded change (abridged) | caught by: first violation key | added to the checks first |")
+    print("|---|---|---|---|---|")
+    for sid, pid, summ, needs, caught, first in rows:
+        rnd = ROUND.get(sid.split("_")[0] if "_" in sid else "C", "?")
+        key = ":".join(first.split(":")[0:3]).strip()[:70]
+        print(f"| {rnd} | {pid} | {summ[:150].replace('|', '/')} | {caught}: `{key}` | {ADDED.get(sid, '')} |")
+    n = len(rows)
+    ok = sum(1 for r in rows if r[4] not in ("MISSED", "not confirmed"))
+    print(f"\n{ok} of {n} confirmed seeded changes are caught by the quick tier of the attacked property's check; "
+          f"{sum(1 for r in rows if r[0] in ADDED)} of them only after the strengthening named in the last column.")
+
+
+if __name__ == "__main__":
+    main()
